@@ -66,6 +66,7 @@ package lspcommon
 //@ func (*FileMapCache).ApplyContentChanges
 //@   props C02
 //@   sweep C01
+//@   requires[protocol-conformant] forall(k, 0, len(changes), changes[k].Range == nil ==> changes[k].RangeLength == 0)
 //@   loop 0 assume WF(contents, 0) && len(contents) < 4294967295
 //@   loop 0 decreases len(changes) - rangeindex
 //@   at call (*bytes.Buffer).Bytes#0 assert[splice-length] len(result) == start + len(change.Text) + len(contents) - end
